@@ -400,14 +400,16 @@ fn main() {
                 }
                 let text = p.iql();
                 let cfg_bits = if rng.chance(1, 2) { 0 } else { 31 };
-                let res = run_engine(&text, &edb, cfg_bits, 1, 0);
+                let workers = *rng.pick(&[1usize, 1, 2, 3, 4]);
+                sink.tally(&format!("workers:{}", workers));
+                let res = run_engine(&text, &edb, cfg_bits, workers, 0);
                 let coq = format!("C07Case {}%nat {} {} {}", fuel, p.coq(), edb_coq(&edb), coq_res(&res));
                 let nontriv = match &res {
                     Ok(ts) if !ts.is_empty() => Some(format!("{}|{}|{}", text, edb_coq(&edb), tuples_key(ts))),
                     _ => None,
                 };
                 sink.tally(match &res { Ok(ts) if ts.is_empty() => "answer:empty", Ok(_) => "answer:nonempty", Err(_) => "answer:error" });
-                sink.push(coq, serde_json::json!({"program": text, "edb": edb_json(&edb), "config_bits": cfg_bits, "engine_answer": json_res(&res)}), &tags, nontriv);
+                sink.push(coq, serde_json::json!({"program": text, "edb": edb_json(&edb), "config_bits": cfg_bits, "workers": workers, "engine_answer": json_res(&res)}), &tags, nontriv);
             }
             sink.finish();
         }
@@ -428,7 +430,7 @@ fn main() {
                     continue;
                 }
                 let text = p.iql();
-                let cfg_bits = if rng.chance(1, 2) { 0 } else { 31 };
+                let cfg_bits = if rng.chance(1, 4) { 0 } else { 31 };
                 let full = run_engine(&text, &edb, cfg_bits, 1, 0);
                 let alen = full.as_ref().map(|v| v.len()).unwrap_or(0);
                 let mut limits = vec![1usize, 2, 3, 5];
